@@ -312,6 +312,30 @@ def impl_observe(data, queries):
     segs = [[type(s).__name__, canon(s.header)] for s in f.iter_segments()]
     if f.num_segments() != len(segs):
         raise AssertionError('num_segments disagrees with iter_segments')
+    # the type filter of both enumerations yields exactly the entries whose reported type EQUALS the filter — for every
+    # type the file reports (names and raw codes), for names that are substrings of other names, and for absent ones
+    # (a seeded `in` for `==` made 'SHT_REL' also select SHT_RELA sections and raise on unnamed codes)
+    allsec = list(f.iter_sections())
+    stypes = []
+    for s in allsec:
+        if s['sh_type'] not in stypes:
+            stypes.append(s['sh_type'])
+    # (the documented filter is a type NAME: raw codes are reported by the file but not passed as a filter)
+    for t in [x for x in stypes if isinstance(x, str)] + [x for x in ('SHT_REL', 'SHT_SYMTAB', 'SHT_NO') if x not in stypes]:
+        want = [[s.name, canon(s.header)] for s in allsec if s['sh_type'] == t]
+        got = [[s.name, canon(s.header)] for s in f.iter_sections(type=t)]
+        if got != want:
+            raise AssertionError('iter_sections(type=%r) yields %d sections, %d have that type' % (t, len(got), len(want)))
+    allseg = list(f.iter_segments())
+    ptypes = []
+    for g in allseg:
+        if g['p_type'] not in ptypes:
+            ptypes.append(g['p_type'])
+    for t in [x for x in ptypes if isinstance(x, str)] + [x for x in ('PT_LOAD', 'PT_NO') if x not in ptypes]:
+        want = [canon(g.header) for g in allseg if g['p_type'] == t]
+        got = [canon(g.header) for g in f.iter_segments(type=t)]
+        if got != want:
+            raise AssertionError('iter_segments(type=%r) yields %d segments, %d have that type' % (t, len(got), len(want)))
     # lookups by name, each through its own public function: [get_section_index, has_section, get_section_by_name]
     look = []
     for q in queries:
